@@ -25,3 +25,16 @@ func TestCmTdOrder(t *testing.T) {
 		t.Fatalf("line advance %v, want 14.4", fr[0].Y-fr[1].Y)
 	}
 }
+
+// TestTJKeepsLineMatrix: a TJ adjustment moves the text position, not the start of the line (fixed by cc32796).
+func TestTJKeepsLineMatrix(t *testing.T) {
+	prog := "BT /F1 10 Tf 100 700 Td [(AB) -2000 (CD)] TJ 0 -14 Td (EF) Tj ET"
+	fr, err := text.NewExtractor().ExtractFromBytes([]byte(prog))
+	if err != nil || len(fr) == 0 {
+		t.Fatal(err, len(fr))
+	}
+	last := fr[len(fr)-1]
+	if math.Abs(last.X-100) > 1e-6 {
+		t.Fatalf("EF starts at x=%v; Td is relative to the line matrix, which TJ does not move: want 100", last.X)
+	}
+}
